@@ -91,6 +91,11 @@ def scenario(shape):
                 eng.prove(r['done'] and r['error'] is None and r['result'] == hash_to_hex_str(tx.hash),
                           'quiescent id-from-position differs from the current chain',
                           {'signature': 'stale-answer:id_from_pos', 'height': b.height, 'pos': pos})
+        if shape.get('trace'):
+            eng.note('trace: ' + ' | '.join(fs.sched.trace))
+            import sys as _s
+            if any(t.startswith(shape['trace']) for t in fs.sched.trace if isinstance(shape['trace'], str)):
+                print('TRACE ' + ' | '.join(fs.sched.trace), file=_s.stderr)
         symx.observe('requests', len(st.requests))
     finally:
         st.fs.close()
@@ -127,6 +132,10 @@ def shapes(tier):
     out.append({'initial': INITIAL + [payA, payAB], 'deviations': 0, 'early': False,
                 'script': [('query', 0, 'id_from_pos', (h, 0)) for h in (0, 1, 2, 3, 4, 5, 3, 1)] +
                           [('reorg', 2, [cbB, payA, cbC])]})
+    # a by-height read that starts just before the undo (while the reorg range is being worked out) and may be delivered
+    # (postponed) after the reorg handler cleared the caches but before the next notification
+    out.append({'initial': INITIAL + [payA], 'deviations': d1, 'early': False, 'hold': True,
+                'script': [(('when', 'daemon:block_hex_hashes', 2), ('query', 0, 'id_from_pos', (4, 1))), ('reorg', 1, [cbB, payAB])]})
     if tier == 'thorough':
         for s in list(out):
             out.append(dict(s, deviations=2, window=10))
@@ -150,7 +159,7 @@ KERNELS = [
                     '_handle_chain_reorgs', 'tx_hashes_at_blockheight', 'ElectrumX.confirmed_and_unconfirmed_history',
                     'get_balance', 'hashX_listunspent', 'unconfirmed_history', 'transaction_id_from_pos',
                     'electrumx/server/db.py:DB.limited_history', 'all_utxos', 'tx_hashes_at_blockheight'],
-           bounds='5 (quick) / 12 (thorough) scripted stories with queries placed before, inside (right after '
+           bounds='8 (quick) / 18 (thorough) scripted stories with queries placed before, inside (right after '
                   'backup_block returns) and after reorganisation windows or racing a block; interleaving as in C07 '
                   '(1 / 2 deviations)',
            outside='as C07; cache eviction by capacity (1000 entries)',
